@@ -28,7 +28,9 @@ func newTwoParty(c *vf.Case, pull bool, res datatransfer.ValidationResult) *twoP
 	peers := gen.Peers(c.Rng, 2)
 	a := newMgrFix(c, peers[0], nil)
 	b := newMgrFix(c, peers[1], nil)
-	b.val.SetOutcome(func(kind string, n int, ch datatransfer.ChannelID) (datatransfer.ValidationResult, error) { return res, nil })
+	b.val.SetOutcome(func(kind string, n int, ch datatransfer.ChannelID) (datatransfer.ValidationResult, error) {
+		return res, nil
+	})
 	br := newBridge(a, b)
 	chid, err := a.open(pull, peers[1], gen.Voucher(c.Rng, "VT0"), dummyCid)
 	if err != nil {
@@ -301,6 +303,27 @@ func TestC11Step(t *testing.T) {
 			settle()
 			st2, _ := cs.GetByID(bg, chid)
 			after, _ := doubles.ViewOf(st2)
+			// derived flags, on every state seen: both-paused is the conjunction, self-paused is the flag of
+			// the local role, and a responder awaiting finalization counts as paused in all of them
+			for _, v := range []*doubles.StateView{before, after} {
+				if v == nil {
+					continue
+				}
+				if v.Status == datatransfer.Finalizing && !v.ResponderPaused {
+					c.Violation("C11", "finalizing-responder-not-paused", "status Finalizing but ResponderPaused()=false")
+				}
+				if v.BothPaused != (v.InitiatorPaused && v.ResponderPaused) {
+					c.Violation("C11", "both-paused-not-conjunction "+v.Status.String(), "status %s: InitiatorPaused=%v ResponderPaused=%v but BothPaused=%v", v.Status, v.InitiatorPaused, v.ResponderPaused, v.BothPaused)
+				}
+				wantSelf := v.ResponderPaused
+				if rl.Initiator {
+					wantSelf = v.InitiatorPaused
+				}
+				if v.SelfPaused != wantSelf {
+					c.Violation("C11", "self-paused-wrong-role "+v.Status.String(), "status %s, local role initiator=%v: InitiatorPaused=%v ResponderPaused=%v but SelfPaused=%v", v.Status, rl.Initiator, v.InitiatorPaused, v.ResponderPaused, v.SelfPaused)
+				}
+				c.Count("derived_flag_checks", 1)
+			}
 			d := doubles.Diff(before, after, false)
 			if len(d) == 0 {
 				ignored++
